@@ -390,3 +390,155 @@ Proof.
   destruct (readUintN_ok (seg_of m p) (p_off p + n / 8) 1 (conj Hl Hb) ltac:(lia) ltac:(lia) ltac:(lia)) as [E1 _].
   rewrite E1. discriminate.
 Qed.
+
+(* ------------------------------------------------------------------ list accessors *)
+Lemma wf_list_inv m p : wf_list m p -> p_valid p = true ->
+  0 <= p_seg p < zlen m /\ 0 <= p_off p /\ 0 <= p_len p < 536870912 /\
+  if p_bit p
+  then p_size p = mkOS 0 0 /\ p_off p + (p_len p + 7) / 8 <= zlen (seg_of m p)
+  else wf_size (p_size p) /\ p_off p + p_len p * totalSize (p_size p) <= zlen (seg_of m p).
+Proof.
+  intros [Hw Hk] V. specialize (Hw V). specialize (Hk V). destruct Hw as [Hs Ho].
+  unfold wf_obj in Ho. rewrite Hk in Ho. tauto.
+Qed.
+
+Lemma list_len_valid p i : 0 <= i < list_len p -> p_valid p = true /\ 0 <= i < p_len p.
+Proof. unfold list_len. destruct (p_valid p); intros; [split; [reflexivity|assumption]|lia]. Qed.
+
+(* the address of element i of a (non-bit) list *)
+Lemma list_element_spec m p i : msg_ok m -> wf_list m p -> p_valid p = true -> p_bit p = false ->
+  0 <= i < p_len p ->
+  element (p_off p) i (totalSize (p_size p)) = Some (p_off p + i * totalSize (p_size p)) /\
+  0 <= p_off p + i * totalSize (p_size p) /\
+  p_off p + i * totalSize (p_size p) + totalSize (p_size p) <= zlen (seg_of m p).
+Proof.
+  intros Hm Hw V Hb Hi. destruct (wf_list_inv m p Hw V) as (Hs & Ho & Hl & Hr). rewrite Hb in Hr.
+  destruct Hr as [Hz Hr]. pose proof (totalSize_bound _ Hz) as Ht.
+  destruct (seg_of_ok m p Hm) as [Hsl _].
+  assert (i * totalSize (p_size p) + totalSize (p_size p) <= p_len p * totalSize (p_size p)) by nia.
+  assert (0 <= i * totalSize (p_size p)) by nia.
+  split; [|lia].
+  destruct (element _ _ _) eqn:E.
+  - apply element_spec in E. destruct E as [-> _]. reflexivity.
+  - apply element_none in E. lia.
+Qed.
+
+(* List.Struct(i): panics exactly for an invalid list or an index outside [0, Len()) *)
+Lemma list_struct_panic_iff fd p i :
+  list_struct fd p i = Panic <-> (p_valid p = false \/ i < 0 \/ i >= p_len p).
+Proof.
+  unfold list_struct. destruct (p_valid p); cbn [negb orb].
+  - destruct (i <? 0) eqn:E1; cbn [orb]; [split; [lia|reflexivity]|].
+    destruct (i >=? p_len p) eqn:E2; [split; [lia|reflexivity]|].
+    destruct (p_bit p); [split; [discriminate|intros [H|H]; [discriminate|lia]]|].
+    destruct (element _ _ _); (split; [discriminate|intros [H|H]; [discriminate|lia]]).
+  - split; [auto|reflexivity].
+Qed.
+
+Lemma list_struct_safe fd m p i : msg_ok m -> wf_list m p -> 0 <= i < list_len p ->
+  res_sat (list_struct fd p i) (wf_struct m).
+Proof.
+  intros Hm Hw Hi. apply list_len_valid in Hi. destruct Hi as [V Hi].
+  unfold list_struct. rewrite V. cbn [negb orb].
+  destruct (i <? 0) eqn:E1; [lia|]. destruct (i >=? p_len p) eqn:E2; [lia|]. cbn [orb].
+  destruct (p_bit p) eqn:Hb; [cbn; split; [apply wf_null|discriminate]|].
+  destruct (list_element_spec m p i Hm Hw V Hb Hi) as (Ee & Ha & Hend). rewrite Ee.
+  destruct (wf_list_inv m p Hw V) as (Hs & Ho & Hl & Hr). rewrite Hb in Hr. destruct Hr as [Hz Hr].
+  cbn [res_sat]. split; [|reflexivity]. unfold wf_ptr. pcbn. intros _. split; [assumption|].
+  unfold wf_obj, seg_of in *. pcbn. rewrite (totalSize_wf _ Hz) in *.
+  repeat split; try apply Hz; lia.
+Qed.
+
+(* primitiveElem: same documented panic *)
+Lemma primitiveElem_panic_iff fu p i exp :
+  primitiveElem fu p i exp = Panic <-> (p_valid p = false \/ i < 0 \/ i >= p_len p).
+Proof.
+  unfold primitiveElem. destruct (p_valid p); cbn [negb orb].
+  - destruct (i <? 0) eqn:E1; cbn [orb]; [split; [lia|reflexivity]|].
+    destruct (i >=? p_len p) eqn:E2; [split; [lia|reflexivity]|].
+    dif; [split; [discriminate|intros [H|H]; [discriminate|lia]]|].
+    destruct (element _ _ _); [|split; [discriminate|intros [H|H]; [discriminate|lia]]].
+    dif; [destruct (addSize _ _)|]; (split; [discriminate|intros [H|H]; [discriminate|lia]]).
+  - split; [auto|reflexivity].
+Qed.
+
+Lemma primitiveElem_safe fu m p i exp : msg_ok m -> wf_list m p -> 0 <= i < list_len p ->
+  0 <= DataSize exp -> 0 <= PointerCount exp -> (DataSize exp = 0 \/ PointerCount exp = 0) ->
+  res_sat (primitiveElem fu p i exp)
+          (fun a => 0 <= a /\ a + DataSize exp + 8 * PointerCount exp <= zlen (seg_of m p)).
+Proof.
+  intros Hm Hw Hi Hed Hep Hex. apply list_len_valid in Hi. destruct Hi as [V Hi].
+  unfold primitiveElem. rewrite V. cbn [negb orb].
+  destruct (i <? 0) eqn:E1; [lia|]. destruct (i >=? p_len p) eqn:E2; [lia|]. cbn [orb].
+  destruct (p_bit p) eqn:Hb; cbn [orb]; [exact I|].
+  destruct (list_element_spec m p i Hm Hw V Hb Hi) as (Ee & Ha & Hend).
+  destruct (wf_list_inv m p Hw V) as (Hs & Ho & Hl & Hr). rewrite Hb in Hr. destruct Hr as [Hz Hr].
+  rewrite (totalSize_wf _ Hz) in *. unfold wf_size in Hz.
+  destruct (p_comp p) eqn:Hc; cbn [negb andb orb].
+  - destruct (DataSize (p_size p) <? DataSize exp) eqn:Ed; cbn [orb]; [exact I|].
+    destruct (PointerCount (p_size p) <? PointerCount exp) eqn:Ep; [exact I|].
+    rewrite Ee. destruct fu; cbn [andb].
+    + destruct (0 <? PointerCount exp) eqn:E0.
+      * destruct (addSize _ _) as [a|] eqn:Eadd; [|exact I].
+        apply addSize_spec in Eadd. destruct Eadd as [-> _]. cbn [res_sat]. lia.
+      * cbn [res_sat]. lia.
+    + cbn [res_sat]. lia.
+  - unfold os_eqb. destruct (DataSize (p_size p) =? DataSize exp) eqn:Ed; cbn [andb negb]; [|exact I].
+    destruct (PointerCount (p_size p) =? PointerCount exp) eqn:Ep; cbn [negb]; [|exact I].
+    rewrite Ee. rewrite Bool.andb_false_r. cbn [andb orb res_sat]. lia.
+Qed.
+
+(* PointerList.At(i) *)
+Lemma ptrlist_at_safe c fu m rl p i : msg_ok m -> wf_list m p -> 0 <= i < list_len p ->
+  res_sat (fst (ptrlist_at c fu m rl p i)) (fun q => cfg_strict c = true -> wf_ptr m q).
+Proof.
+  intros Hm Hw Hi. unfold ptrlist_at.
+  pose proof (primitiveElem_safe fu m p i (mkOS 0 1) Hm Hw Hi ltac:(cbn; lia) ltac:(cbn; lia)
+                ltac:(left; reflexivity)) as H.
+  destruct (primitiveElem fu p i (mkOS 0 1)) as [a| |]; cbn [res_sat] in H; [|exact I|exact H].
+  cbn [DataSize PointerCount] in H.
+  apply list_len_valid in Hi. destruct Hi as [V Hi].
+  destruct (wf_list_inv m p Hw V) as (Hs & _).
+  apply readPtr_safe; try assumption; try lia. apply seg_of_is_seg. assumption.
+Qed.
+
+(* UInt8/16/32/64 List.At(i) *)
+Lemma list_uint_at_safe fu m p i n : msg_ok m -> wf_list m p -> 0 <= i < list_len p -> 0 <= n <= 8 ->
+  res_sat (list_uint_at fu m p i n)
+          (fun v => v = 0 \/ exists a, 0 <= a /\ a + n <= zlen (seg_of m p) /\ v = le_decode (sub (seg_of m p) a n)).
+Proof.
+  intros Hm Hw Hi Hn. unfold list_uint_at.
+  pose proof (primitiveElem_safe fu m p i (mkOS n 0) Hm Hw Hi ltac:(cbn; lia) ltac:(cbn; lia)
+                ltac:(right; reflexivity)) as H.
+  destruct (primitiveElem fu p i (mkOS n 0)) as [a| |]; cbn [res_sat] in H; [|left; reflexivity|exact H].
+  cbn [DataSize PointerCount] in H.
+  destruct (readUintN_ok (seg_of m p) a n (seg_of_ok m p Hm) ltac:(lia) ltac:(lia) ltac:(lia)) as [E _].
+  rewrite E. cbn [res_sat]. right. exists a. repeat split; try lia.
+Qed.
+
+(* BitList.At(i), repaired (no struct-field offset limit) *)
+Lemma bitlist_at_safe m p i : msg_ok m -> wf_list m p -> 0 <= i < list_len p ->
+  bitlist_at true m p i <> Panic.
+Proof.
+  intros Hm Hw Hi. apply list_len_valid in Hi. destruct Hi as [V Hi].
+  unfold bitlist_at. rewrite V. cbn [negb orb].
+  destruct (i <? 0) eqn:E1; [lia|]. destruct (i >=? p_len p) eqn:E2; [lia|]. cbn [orb].
+  destruct (p_bit p) eqn:Hb; cbn [negb]; [|discriminate]. cbv zeta.
+  destruct (wf_list_inv m p Hw V) as (Hs & Ho & Hl & Hr). rewrite Hb in Hr. destruct Hr as [Hz Hr].
+  destruct (seg_of_ok m p Hm) as [Hsl Hsb]. unfold maxSegmentSize in Hsl.
+  unfold bitOffset_offset. rewrite u32_id by lia.
+  destruct (readUintN_ok (seg_of m p) (p_off p + i / 8) 1 (conj Hsl Hsb) ltac:(lia) ltac:(lia) ltac:(lia)) as [E _].
+  rewrite E. discriminate.
+Qed.
+
+Lemma bitlist_at_panic_iff m p i : msg_ok m -> wf_list m p ->
+  (bitlist_at true m p i = Panic <-> (p_valid p = false \/ i < 0 \/ i >= p_len p)).
+Proof.
+  intros Hm Hw. split.
+  - intros H. destruct (p_valid p) eqn:V; [|left; reflexivity]. right.
+    destruct (Z_lt_ge_dec i 0); [left; assumption|]. destruct (Z_lt_ge_dec i (p_len p)); [|right; assumption].
+    exfalso. apply (bitlist_at_safe m p i Hm Hw); [|assumption]. unfold list_len. rewrite V. lia.
+  - intros H. unfold bitlist_at. destruct (p_valid p); cbn [negb orb]; [|reflexivity].
+    destruct (i <? 0) eqn:E1; [reflexivity|]. destruct (i >=? p_len p) eqn:E2; [reflexivity|].
+    destruct H as [H|H]; [discriminate|lia].
+Qed.
